@@ -4,23 +4,23 @@ CONSTANTS
   MaxIdx = 2
   Multi = {2}
   BatchSz = 2
-  InCap = 2
+  InCap = 0
   AsyncHWM = FALSE
   SigCap = 2
   MaxFlips = 99
   MaxLeaders = 1
-  MaxRestarts = 1
-  MaxSnaps = 1
-  MaxDowns = 0
+  MaxRestarts = 0
+  MaxSnaps = 0
+  MaxDowns = 1
   OneGroupPerEntry = TRUE
   LabelEveryGroup = TRUE
   KeyByHighest = TRUE
   SyncFlushBeforeSnapshot = TRUE
-  DrainInBeforeSync = FALSE
+  DrainInBeforeSync = TRUE
   HWMAfterSendOK = TRUE
   PruneToHWMOnly = TRUE
   RewindCursor = TRUE
-  ParkedKeptUntilSent = TRUE
+  ParkedKeptUntilSent = FALSE
   RestartHWMBelowLowest = TRUE
   DropReapplied = TRUE
 INVARIANTS TypeOK Labelled NoSkip TenureOrder TakenStored KeysBounded LoopShape
